@@ -625,7 +625,9 @@ package graphql
 //@   requires rule != nil && rule.cacheMap != nil
 //@   assigns class:M|, class:E|, class:graphql.ValidationContext, class:graphql.pairSet, class:graphql.fieldsAndFragmentNames, class:graphql.fieldDefPair, class:graphql.conflict
 //@   ensures[C19] old(has(rule.cacheMap, selectionSet) && rule.cacheMap[selectionSet] != nil) ==> result == old(rule.cacheMap[selectionSet]) && calls("collectFieldsAndFragmentNames") == 0
-//@   ensures[C19] result != nil && has(rule.cacheMap, selectionSet) && rule.cacheMap[selectionSet] == result
+// (C09: the pair memo is keyed by this very pointer; an unstored collection makes every lookup a miss and the
+// comparison of a fragment that spreads itself through a field recurses until the stack overflows)
+//@   ensures[C19,C09] result != nil && has(rule.cacheMap, selectionSet) && rule.cacheMap[selectionSet] == result
 //@ func overlappingFieldsCanBeMergedRule.getReferencedFieldsAndFragmentNames
 //@   props C19 C02
 //@   nosafety
@@ -1277,18 +1279,22 @@ package graphql
 // ever added), which keeps one inclusion test linear in the number of spreads; every edge is tested with
 // the request's variables and followed to the gate of the enclosing fragment with the same visited set.
 //@ func fragmentGate.reachable
-//@   props C19 C01
+//@   props C19 C01 C09
 //@   nosafety
-//@   requires g != nil && seen != nil
+// (parameters by position — param0 the gate, param1 the variables, param2 the visited set — so that the
+// contract keeps binding when a parameter is renamed)
+//@   requires param0 != nil && param2 != nil
 //@   opt callback.cond=pure
 //@   assigns class:M|*graphql.fragmentGate|bool
-//@   ensures old(g.always) ==> result && calls("reachable") == 0
-//@   ensures !old(g.always) && old(has(seen, g) && seen[g]) ==> !result && calls("reachable") == 0 && calls("cond") == 0
-//@   ensures[C19] mapkept(seen)
-//@   ensures[C19] !old(g.always) ==> has(seen, g) && seen[g]
-//@   loop 1 invariant mapkept(seen) && has(seen, g) && seen[g]
-//@   at call reachable: assert arg0 == e.from && arg0 != nil && arg1 == vars && arg2 == seen && has(seen, g) && seen[g]
-//@   at call cond: assert arg0 == vars
+//@   ensures old(param0.always) ==> result && calls("reachable") == 0
+//@   ensures !old(param0.always) && old(has(param2, param0) && param2[param0]) ==> !result && calls("reachable") == 0 && calls("cond") == 0
+//@   ensures[C19] mapkept(param2)
+//@   ensures[C19] !old(param0.always) ==> has(param2, param0) && param2[param0]
+//@   loop 1 invariant mapkept(param2) && has(param2, param0) && param2[param0]
+// C09: the gate is marked BEFORE the search descends (what ends the search on fragments that spread each
+// other, which reach execution in unvalidated documents), and the same set goes down
+//@   at[C09,C19,C01] call reachable: assert arg0 == e.from && arg0 != nil && arg1 == param1 && arg2 == param2 && has(param2, param0) && param2[param0]
+//@   at call cond: assert arg0 == param1
 //@ func fragmentGate.included
 //@   props C19 C01
 //@   nosafety
@@ -1596,6 +1602,31 @@ package graphql
 // (verified, were trusted) what the key hashes of a value: a kind byte and then, for free text (string
 // literals), the LENGTH, a colon and the text — no string content can imitate the delimiters that follow it;
 // lists and objects hash every item / field in order between brackets.
+// variable definitions and directives in the key (C06; C12: a default or a directive argument that is not in
+// the key makes the answer depend on which request filled the cache first): every definition contributes its
+// name, its type and — when it has one — its default VALUE (not just its kind); every directive its name and,
+// per argument, the name and the value
+//@ func fingerprintWriter.writeVariableDefs
+//@   props C06 C12
+//@   nosafety
+//@   assigns nothing
+//@   loop 1 over defs
+//@   at call writeString#2: assert arg1 == d.Variable.Name.Value
+//@   at call writeType: assert arg1 == d.Type
+//@   at call writeValue: assert arg1 == d.DefaultValue && d.DefaultValue != nil
+//@   loop 1 ensures d != nil && d.Variable != nil && d.Variable.Name != nil ==> calls("writeType") == atloop(1, calls("writeType")) + 1 && calls("writeString") == atloop(1, calls("writeString")) + 1
+//@   loop 1 ensures d != nil && d.Variable != nil && d.Variable.Name != nil && d.DefaultValue != nil ==> calls("writeValue") == atloop(1, calls("writeValue")) + 1
+//@ func fingerprintWriter.writeDirectives
+//@   props C06 C12
+//@   nosafety
+//@   assigns nothing
+//@   loop 1 over dirs
+//@   loop 2 over d.Arguments
+//@   at call writeString#1: assert arg1 == d.Name.Value
+//@   at call writeString#2: assert arg1 == a.Name.Value
+//@   at call writeValue: assert arg1 == a.Value
+//@   loop 2 ensures a != nil && a.Name != nil ==> calls("writeValue") == atloop(2, calls("writeValue")) + 1 && calls("writeString") == atloop(2, calls("writeString")) + 1
+//@   loop 1 ensures d != nil && d.Name != nil ==> calls("writeString") >= atloop(1, calls("writeString")) + 1
 //@ func fingerprintWriter.writeValue
 //@   props C06
 //@   nosafety
@@ -1792,9 +1823,18 @@ package graphql
 //@   ensures s.Distances[i] < s.Distances[j] ==> result
 //@   ensures s.Distances[i] > s.Distances[j] ==> !result
 //@   ensures s.Distances[i] == s.Distances[j] ==> (result <==> s.Options[i] < s.Options[j])
+//@ extern func sort::Sort
+//@   assigns class:E|string, class:E|float64
+//@ func lexicalDistance
+//@   props C12
+//@   nosafety
+//@   assigns class:E|float64, class:E|[]float64
+// (frame: the ranking works on its own copies; it writes nothing the caller can see but elements of string /
+// float slices — without it every caller lost all it knew about the heap at this call)
 //@ func suggestionList
 //@   props C12
 //@   nosafety
+//@   assigns class:E|string, class:E|float64, class:E|[]float64
 //@   at call Sort: assert typeis(arg0, "graphql.suggestionListResult") && as(arg0, "graphql.suggestionListResult").Options == filteredOpts && as(arg0, "graphql.suggestionListResult").Distances == dists
 //@   ensures calls("Sort") == 1 && calls("Stable") == 0
 //@   loop 1 over options
